@@ -2,14 +2,17 @@ from check import run_diff_property
 import lib
 
 CFG = dict(
-    streams=[('ja3', 3000, 40000), ('e2e', 150, 2500)],
-    oracle_ops={'ja3spec', 'e2e'},
+    streams=[('ja3', 3000, 40000), ('e2e', 150, 2500), ('rw', 800, 12000)],
+    oracle_ops={'ja3spec', 'e2e', 'rwspec05'},
     twophase_ops={'e2e'},
+    ops_filter={'ja3', 'ja3fp', 'ja3spec', 'ser', 'e2e', 'rwspec05'},
     project={'e2e': lib.proj_e2e({'ja3', 'st'})},
     rule=("structured well-formed ClientHellos (list lengths 0,1,2,3..130 with GREASE forced first/last/only/all, "
           "no-extension hellos, SNI lengths swept over 250..260 and 505..520) serialised and pushed through "
           "tlsx+ja3.Bare / fingerprint.JA3Fingerprint; plus truncations, bit flips, trailing bytes and random bytes; "
-          "thorough adds every uint16 as singleton cipher/extension/group. distinct = distinct operation lines; "
+          "thorough adds every uint16 as singleton cipher/extension/group; plus the handler in-process with scripted injector sets "
+          "(default three + custom, shuffled order, value / empty / error outcomes): what the backend receives under each name "
+          "against Fp.Spec.Proxy.specValues (delivery clause). distinct = distinct operation lines; "
           "non-trivial = the implementation produced a value or a classified error for a non-empty record"),
     assumptions=[
         "crypto/tls accepts only hellos that are well-formed in the sense of Fp.Tls.WellFormed (validated by the accept stream)",
